@@ -999,6 +999,11 @@ impl<Writer: Write> Muxer<Writer> {
 
     /// Helper to detect if a video frame is a keyframe.
     fn is_keyframe(&self, data: &[u8]) -> bool {
+        // An empty frame is rejected by write_video (EmptyVideoFrame); it is never a keyframe.
+        if data.is_empty() {
+            return false;
+        }
+
         // INV-100: Video frame data must not be empty
         assert_invariant!(
             !data.is_empty(),
@@ -1009,15 +1014,19 @@ impl<Writer: Write> Muxer<Writer> {
         match self.video_track.codec {
             VideoCodec::H264 => {
                 // Check for IDR NAL (type 5)
-                let has_idr = AnnexBNalIter::new(data).any(|nal| (nal[0] & 0x1f) == 5);
+                let has_idr = AnnexBNalIter::new(data)
+                    .filter(|nal| !nal.is_empty())
+                    .any(|nal| (nal[0] & 0x1f) == 5);
                 has_idr
             }
             VideoCodec::H265 => {
                 // Check for IDR NAL (type 19-21)
-                let has_idr = AnnexBNalIter::new(data).any(|nal| {
-                    let nal_type = (nal[0] >> 1) & 0x3f;
-                    (19..=21).contains(&nal_type)
-                });
+                let has_idr = AnnexBNalIter::new(data)
+                    .filter(|nal| !nal.is_empty())
+                    .any(|nal| {
+                        let nal_type = (nal[0] >> 1) & 0x3f;
+                        (19..=21).contains(&nal_type)
+                    });
                 has_idr
             }
             VideoCodec::Av1 => {
@@ -1035,6 +1044,12 @@ impl<Writer: Write> Muxer<Writer> {
                 is_key
             }
             VideoCodec::Vp9 => {
+                // Too short to hold a VP9 frame marker: not a keyframe; write_video will
+                // reject it when it is the first frame.
+                if data.len() < 3 {
+                    return false;
+                }
+
                 // Use VP9 keyframe detection
                 let is_key = is_vp9_keyframe(data).unwrap_or(false);
 
